@@ -1,7 +1,7 @@
 (* Printing side of the C08/C09 correspondence: every step of a history becomes nested lists of small integers:
    outcome code + number of statements, per table the row-level difference to the state before the call, the retrieval result. *)
 From Coq Require Import ZArith List Bool.
-From PG Require Import Db.DbModel Db.DbSpec.
+From PG Require Import Db.DbModel Db.DbSpec Db.DbConn.
 Import ListNotations.
 Open Scope Z_scope.
 
@@ -53,8 +53,11 @@ Fixpoint diff_tables (i : nat) (old new : list (list (list Z))) : list (list (li
       ++ diff_tables (S i) ro rn
   | _, _ => [] end.
 
+(* 100 + k: another Exception class (EExc k), 200 + k: a BaseException-only class (EBase k); 13 / 14: an IntegrityError / InterfaceError
+   that reaches the caller untranslated (raised by COMMIT, outside the handlers) *)
 Definition oc_code (o : outcome) : Z :=
-  match o with OOk _ => 0 | OParsing => 3 | OOther EOperational => 10 | OOther _ => 11 | ODied => 12 end.
+  match o with OOk _ => 0 | OParsing => 3 | OOther EOperational => 10 | OOther EIntegrity => 13 | OOther EInterface => 14
+             | OOther (EExc k) => 100 + k | OOther (EBase k) => 200 + k | OOther _ => 11 | ODied => 12 end.
 Fixpoint flat2 (l : list (Z * val)) : list Z := match l with [] => [] | (a, v) :: r => a :: vcode v :: flat2 r end.
 Fixpoint flat3 (l : list (Z * Z * Z)) : list Z := match l with [] => [] | (a, b, c) :: r => a :: b :: c :: flat3 r end.
 (* retrieval results; entities whose name is in `base` (the content db_create ships) are only counted *)
@@ -90,10 +93,14 @@ Definition db_eqb (a b : db) : bool :=
 Definition reg_eqb (a b : reg) : bool :=
   let s (x y : list Z) := forallb (fun n => memZ n y) x && forallb (fun n => memZ n x) y in
   s (r_ads a) (r_ads b) && s (r_mat a) (r_mat b).
+Definition ev_code (e : cev) : Z := match e with EvConnect => 1 | EvCommit => 2 | EvRollback => 3 | EvClose => 4 end.
 Definition show_fault (flt : fault) (cf : cfault) (reg0 : reg) (o : op) (d : db) (r : reg) : list Z :=
   let '(oc, d1, r1, n) := with_conn flt cf (body o) d r in
   let '(oc0, d0, r0, n0) := run_op o d r in
   let r1' := match oc with ODied => reg0 | _ => r1 end in        (* a new process starts from the shipped registry *)
   let '(oc2, d2, r2, n2) := run_op o d1 r1' in
+  let cx := snd (with_conn_gen wc_source flt cf (body o) d r) in
   [oc_code oc; Z.of_nat n; if db_eqb d1 d then 1 else 0; if db_eqb d1 d0 then 1 else 0; oc_code oc0; Z.of_nat n0;
-   oc_code oc2; if db_eqb d2 d0 then 1 else 0; if reg_eqb r1 r then 1 else 0].
+   oc_code oc2; if db_eqb d2 d0 then 1 else 0; if reg_eqb r1 r then 1 else 0;
+   (* the connection protocol (Db/DbConn.v): closed when the call ends?  then the calls made on the connection, in order *)
+   if x_closed cx then 1 else 0] ++ map ev_code (x_ev cx).
